@@ -4,7 +4,7 @@
 From Bnum Require Import Base Prim.
 From Bnum.Model Require Import Digit DigitPrims LoopPrims Core AddSub Bits Imp ImpParse Parse.
 From Bnum.Generated Require Import DigitGen ParseGen.
-From Bnum.Proofs Require Import ImpLemmas ImpLemmas2 ParseGenTieA ParseGenTieB ParseGenTieC.
+From Bnum.Proofs Require Import ParseSpec ImpLemmas ImpLemmas2 ParseGenTieA ParseGenTieB ParseGenTieC.
 
 (* ---------- Result::ok and the panic of parse_str_radix ---------- *)
 
